@@ -173,19 +173,24 @@ def campaign_gate(cx):
                             cx.check(ok_hi and ok_lo, key + ":range", "the scan covers applied+1 .. committed (found %s .. %s)" % (show(lo)[:80], show(hi)), cc)
     cx.check(n >= 3, "floor", "election entry points were found")
     # the vote-carried commit fast-forward: a (pre)candidate steps down if it learns of a conf change
-    mcv = [c.fn for c in cx.prog.call_sites_of("RaftLog::maybe_commit") if any(is_f(a, "Message.commit_term") for a in call_args(cx, c))]
+    mcv = [c for c in cx.prog.call_sites_of("RaftLog::maybe_commit") if any(is_f(a, "Message.commit_term") for a in call_args(cx, c))]
     cx.check(bool(mcv), "fast-forward:fn", "the vote-carried commit fast-forward exists")
-    for f in {x.key: x for x in mcv}.values():
+    for mc in mcv:
+        f = mc.fn
         g = cx.pg(f)
-        downs = [c for sp, c in cx.prog.calls_out[f.key] if c.kind == "call" and sp in cx.prog.short and STATE in cx.prog.modset_short(sp)]
-        cx.check(len(downs) == 1, "fast-forward:stepdown", "the fast-forward contains one step-down")
+        # the fast-forward is the region the commit call dominates (it may have been inlined into a dispatcher
+        # with step-downs of its own)
+        downs = [c for sp, c in cx.prog.calls_out[f.key] if c.kind == "call" and sp in cx.prog.short and STATE in cx.prog.modset_short(sp)
+                 and g.dominated_by_block((c.block, "term"), lambda b, mc=mc: b == mc.block)]
+        cx.check(len(downs) == 1, cx.site_key(mc, "fast-forward:stepdown"), "the fast-forward contains one step-down", mc)
         for c in downs:
             def found(l):
                 return l[0] == "is" and l[2] is True and l[1][0] == "call" and l[1][1] == cx.sfx("Raft::has_unapplied_conf_changes")
             require(cx, c, cx.site_key(c, "stepdown"), "the candidate steps down when the newly committed range holds a conf change", found, kill=False)
             # the scanned range starts right after the commit index as it was BEFORE the fast-forward
             from ..engine import value_read_before
-            scans = [x for x in cx.prog.call_sites_of(cx.sfx("Raft::has_unapplied_conf_changes")) if x.fn is f]
+            scans = [x for x in cx.prog.call_sites_of(cx.sfx("Raft::has_unapplied_conf_changes")) if x.fn is f
+                     and g.dominated_by_block((x.block, "term"), lambda b, mc=mc: b == mc.block)]
             for sc in scans:
                 lo = call_args(cx, sc)[1]
                 okr = value_read_before(cx, sc, 1, "RaftLog::maybe_commit")
